@@ -26,7 +26,8 @@ P = {'id': 'C13',
               'sbr_initial_stream',
               'sbr_seek_current',
               'range_reads_concat',
-              'range_initial_stream'],
+              'range_initial_stream',
+              'zc_reads_concat'],
  'trusted': ['modelled (M+S): src/io/var_int.rs (VarInt, SignedVarInt), src/io/var_int_variants.rs (all 7 strategies, single values and sequences); '
              'src/io/simd_encoding/varint.rs (batch = concatenation of scalar LEB128); src/io/data_output.rs / data_input.rs item formats (fixed-width LE, '
              'varint, length-prefixed bytes/strings); src/io/endian.rs EndianIO byte layouts (LE/BE, any width) and byte swap; Option / Vec (u32 count) / '
@@ -37,7 +38,7 @@ P = {'id': 'C13',
              'nested collections, ComplexTypeSerializer configurations and batches, Box/Rc/Arc/Weak and shared-pointer contexts, VersionedSerialize records and '
              'VersionedSerializer configurations, VersionProxy ranges, bulk endian conversion, endianness magic, MmapZeroCopyReader, MultiRangeReader, '
              'StreamBufferedWriter, ZeroCopyWriter, RangeWriter',
-             'theorem for ZeroCopyReader not proved: its model is tied to the code by evaluated histories only'],
+             ],
  'assumptions': ["wrapping (release) arithmetic in the model; the checked profile's panics are observed on the real code by the harness",
                  'agreement of model and code is established on the generated cases only',
                  'the inner reader of the reader models is a std::io::Cursor, optionally limited to k bytes per call; other inner readers are covered by the '
@@ -47,7 +48,7 @@ P = {'id': 'C13',
                'short-read behaviours), about a Gallina restatement of the codecs and readers as written: varint laws, zigzag bijection, prefix-free law, '
                'sequence / option / pair / u32-counted-vector combinators, fixed-width LE/BE integers of any width, byte-swap involution, length-prefixed '
                'byte strings, versioned fields, Version packing (law + refutation), delta law outside the recorded finding class, refutation witnesses for '
-               'the recorded findings, and "the bytes handed out concatenate to the inner stream (of the range)" for the buffered and the ranged reader. The '
+               'the recorded findings, and "the bytes handed out concatenate to the inner stream (of the range)" for the buffered, the ranged and the zero-copy reader. The '
                'model is tied to the compiled code on every run by evaluating thousands of generated cases (values, item scripts, reader histories) in Coq and '
                'comparing with what the implementation returned; a direct oracle (round trip, exact bytes consumed, concatenation, reader = reference slice '
                'under arbitrary read-size histories) runs on the implementation over every back end the property names.',
